@@ -142,7 +142,19 @@ func (nd *Node) AddTransport(name, idn string) *TC { return nd.addTransport(name
 // looks up whatever peer the bus has (which must be idn, the only identity on that bus).
 func (nd *Node) AddTransportAnyPeer(name, idn string) *TC { return nd.addTransport(name, idn, true) }
 
+// AddTransportLate is AddTransport with a slow transport constructor: the constructor is a
+// scheduling point ("harness/transport-ctor") and the call does not wait for it, so the
+// controller runs for a while without a transport (start-up / restart window). TC.Tpt is
+// nil until the constructor has returned.
+func (nd *Node) AddTransportLate(name, idn string) *TC {
+	return nd.addTransportOpt(name, idn, false, true)
+}
+
 func (nd *Node) addTransport(name, idn string, anyPeer bool) *TC {
+	return nd.addTransportOpt(name, idn, anyPeer, false)
+}
+
+func (nd *Node) addTransportOpt(name, idn string, anyPeer, late bool) *TC {
 	n := nd.N
 	p := n.Party(idn)
 	tc := &TC{Node: nd, Name: name, P: p}
@@ -157,6 +169,9 @@ func (nd *Node) addTransport(name, idn string, anyPeer bool) *TC {
 		if err != nil {
 			return nil, err
 		}
+		if late {
+			n.S.Yield("harness/transport-ctor", name)
+		}
 		t := &SimTransport{TC: tc, uuid: tptUUID, peer: pid, Handler: handler}
 		tc.Tpt = t
 		return t, nil
@@ -168,8 +183,10 @@ func (nd *Node) addTransport(name, idn string, anyPeer bool) *TC {
 		panic(err)
 	}
 	nd.rels = append(nd.rels, rel)
-	if _, err := tc.Ctrl.GetTransport(nd.ctx); err != nil {
-		panic(err)
+	if !late {
+		if _, err := tc.Ctrl.GetTransport(nd.ctx); err != nil {
+			panic(err)
+		}
 	}
 	nd.TCs = append(nd.TCs, tc)
 	return tc
